@@ -1460,7 +1460,12 @@ class System:
         obj.report(f"duplicate {str(prev)}", thresh=1)
         subtree = self._subtree(prev)
         self._remove(prev)
-        prev.name = obj.name + ' ' + str(i)
+        old_name = prev.name
+        prev.name = old_name + ' ' + str(i)
+        if prev.parent is not None and prev.parent is not obj.parent and prev.parent.contents.get(old_name) is prev:
+            # Names can contain dots (the setter of property x is named 'x.setter'): the previous holder 
+            # of the full name is not always a sibling, so its parent will not see its entry overwritten.
+            del prev.parent.contents[old_name]
         for o in subtree:
             self.allobjects[o.fullName()] = o
         self.allobjects[fullName] = obj
